@@ -622,9 +622,23 @@ def shift_pair_columns(ck, F, rule="SHIFT-PAIR"):
     the two are inverse on every descriptor they both touch."""
     COL = "ironcalc_base::types::Col"
     for fn, sign in (("insert_columns", "Add"), ("delete_columns", "Sub")):
-        b = ck.need(F.one, "model::Model::" + fn)
+        b0 = ck.need(F.one, "model::Model::" + fn)
         k = 0
-        for bi, si, s in b.stmts():
+        # the function, its closures, and the private helpers of the same file it calls (their parameters are read as
+        # the caller's: `column_start` of a helper that receives `column` is `column`)
+        units = [(bb, None) for bb in unit_bodies(F, b0)]
+        for cbi, t in b0.calls():
+            c = b0.callee(t)
+            hc = F.heads.get(c) if c else None
+            if hc is not None and F.has(c) and hc.get("file") == b0.file and hc.get("vis") not in ("pub",) and hc.get("bkind") == "fn" and c != b0.path:
+                hb = F.body(c)
+                pmap = {}
+                for i, a in enumerate(t["args"], 1):
+                    if i <= hb.nargs and hb.local_name(i):
+                        pmap[hb.local_name(i)] = {x[1] for x in sources(b0, a) if x[0] == "param"}
+                units.append((hb, pmap))
+        for b, pmap in units:
+          for bi, si, s in b.stmts():
             if not place_proj(s["p"]) or s["rv"]["k"] != "use":
                 continue
             p = b.resolve_place(s["p"], through_named=False)
@@ -634,6 +648,14 @@ def shift_pair_columns(ck, F, rule="SHIFT-PAIR"):
             k += 1
             fld = fs[-1][2]
             sr = sources(b, s["rv"]["o"])
+            if pmap is not None:
+                tr = set()
+                for x in sr:
+                    if x[0] == "param" and x[1] in pmap:
+                        tr |= {("param", n) for n in pmap[x[1]]}
+                    else:
+                        tr.add(x)
+                sr = tr
             bad = [x for x in sr if x[0] == "call" or (x[0] == "arith" and x[1] != sign and not (fn == "delete_columns" and x[1] == "Sub"))
                    or (x[0] == "field" and (x[1], x[2]) not in ((COL, "min"), (COL, "max"))) or (x[0] == "param" and x[1] not in ("column", "column_count"))]
             shifted = ("param", "column_count") in sr
@@ -644,7 +666,7 @@ def shift_pair_columns(ck, F, rule="SHIFT-PAIR"):
                   "%s rebuilds Col.%s from %s: only %s column_count (or the deletion boundary) is allowed, otherwise insert followed by "
                   "delete does not restore the descriptor" % (fn, fld, sorted(map(str, sr)), "+" if sign == "Add" else "-"), f, l,
                   sample={"fn": fn, "field": fld, "sources": sorted(map(str, sr))})
-        ck.ob(rule, "%s|Col-stores" % fn, k >= 3, "%s: expected at least 3 stores into Col.min/max, found %d" % (fn, k), b.file, b.line)
+        ck.ob(rule, "%s|Col-stores" % fn, k >= 3, "%s: expected at least 3 stores into Col.min/max, found %d" % (fn, k), b0.file, b0.line)
 
 
 def full_range_guard(ck, F, rule="FULL-RANGE"):
